@@ -16,7 +16,7 @@ MCNext ==
              Len(stored) + Len(targets) <= MaxStored /\ Deliver(targets, Fresh(Len(targets)), "s") /\ nextid' = nextid + Len(targets)
     \/ \E m \in Mailbox : \E id \in Ids(m) : (Delete(m, {id}) \/ MarkSeen(m, id)) /\ UNCHANGED nextid
     \/ \E m \in Mailbox : Purge(m) /\ UNCHANGED nextid
-    \/ \E k \in Monitor, f \in Mailbox \cup {""} : Join(k, f) /\ UNCHANGED nextid
+    \/ \E k \in Monitor, f \in Mailbox \cup {""}, v \in {"v1", "v2"} : Join(k, f, v) /\ UNCHANGED nextid
     \/ \E k \in Monitor : (Drained(k, mon[k].due) \/ Leave(k)) /\ UNCHANGED nextid
     \/ \E m \in Mailbox : PopLogin(m) /\ UNCHANGED nextid
     \/ \E n \in 1 .. 3 : PopDele(n) /\ UNCHANGED nextid
